@@ -1103,3 +1103,180 @@ pub fn selfcheck() -> (bool, Vec<String>) {
     }
     (ok, report)
 }
+
+// ---------------------------------------------------------------------------------------------
+// Systematic sweeps (small scope, complete): every swap point / pair of swap points (C06) and
+// every single edit over pairs of shape-distinct voices (C07)
+// ---------------------------------------------------------------------------------------------
+
+fn sweep_voice(kind: crate::voices::Kind, id: u32, variant: u64) -> Voice {
+    let mut rng = Rng::new(0x5EED ^ (kind as u64) << 8 ^ variant);
+    crate::voices::gen_voice(&mut rng, id, kind, 0, 7)
+}
+
+fn sweep_prog(sites: Vec<Voice>) -> Prog {
+    let chans: Vec<Vec<u32>> = sites.iter().map(|v| vec![v.id]).chain(std::iter::once(vec![])).collect();
+    Prog {
+        sites,
+        chans,
+        n_in: 0,
+        cosmetic: 0,
+        fault: None,
+        edit: Edit::Initial,
+    }
+}
+
+fn base_scenario(prop: &str, backend: Backend, versions: Vec<Version>, saves: Vec<Save>, total: u64) -> Scenario {
+    Scenario {
+        prop: prop.into(),
+        seed: 0,
+        backend,
+        versions,
+        saves,
+        blocks: vec![1],
+        total,
+        input_seed: 7,
+        retire: RetireMode::Present,
+        with_scheduler: false,
+        sample_rate: 44100,
+    }
+}
+
+/// All sweep scenarios of a property, in a fixed order.
+pub fn sweep_scenarios(prop: &str) -> Vec<Scenario> {
+    use crate::voices::ALL_KINDS;
+    let mut out = vec![];
+    if prop == "C06" {
+        let backends = [
+            Backend::Vm,
+            Backend::VmCli,
+            Backend::WasmP2,
+            Backend::WasmCli,
+            Backend::WasmP3,
+            Backend::WasmP4,
+        ];
+        let mut progs: Vec<Prog> = ALL_KINDS.iter().map(|k| sweep_prog(vec![sweep_voice(*k, 0, 0)])).collect();
+        // a few multi-voice programs
+        for (a, b, c) in [(0usize, 4, 8), (3, 9, 12), (15, 16, 5), (14, 2, 7)] {
+            progs.push(sweep_prog(vec![
+                sweep_voice(ALL_KINDS[a], 0, 1),
+                sweep_voice(ALL_KINDS[b], 1, 1),
+                sweep_voice(ALL_KINDS[c], 2, 1),
+            ]));
+        }
+        const N: u64 = 20;
+        for p in &progs {
+            for b in backends {
+                let same = |cos: u32| {
+                    let mut q = p.clone();
+                    q.cosmetic = cos;
+                    q.edit = Edit::Noop;
+                    Version::Gen(q)
+                };
+                // every single swap point
+                for n in 0..=N {
+                    out.push(base_scenario(
+                        "C06",
+                        b,
+                        vec![Version::Gen(p.clone()), same(3)],
+                        vec![Save { at: n, version: 1, latency: 0 }],
+                        N + 12,
+                    ));
+                }
+                // every pair of swap points (coarser grid)
+                for n1 in (0..=12).step_by(3) {
+                    for n2 in (n1..=12).step_by(3) {
+                        out.push(base_scenario(
+                            "C06",
+                            b,
+                            vec![Version::Gen(p.clone()), same(1), same(6)],
+                            vec![Save { at: n1, version: 1, latency: 0 }, Save { at: n2, version: 2, latency: 0 }],
+                            24,
+                        ));
+                    }
+                }
+            }
+        }
+    } else {
+        // C07: pairs of voices with pairwise distinct shapes; every insert / delete / replace
+        let reps: Vec<crate::voices::Kind> = {
+            // one kind per distinct shape
+            let mut seen = std::collections::BTreeSet::new();
+            let mut v = vec![];
+            for k in ALL_KINDS {
+                let voice = sweep_voice(k, 0, 0);
+                let src = sweep_prog(vec![voice]).render();
+                if let Ok(sh) = reference_shapes(&src, None, false) {
+                    if seen.insert(sh.join("|")) {
+                        v.push(k);
+                    }
+                }
+            }
+            v
+        };
+        let backends = [Backend::Vm, Backend::WasmP3, Backend::VmCli, Backend::WasmP4];
+        let mut next_id = 10u32;
+        for (ia, a) in reps.iter().enumerate() {
+            for (ib, b) in reps.iter().enumerate() {
+                if ia == ib {
+                    continue;
+                }
+                let v0 = sweep_prog(vec![sweep_voice(*a, 0, 2), sweep_voice(*b, 1, 2)]);
+                let mut edits: Vec<Prog> = vec![];
+                // delete either
+                for pos in 0..2 {
+                    let mut p = v0.clone();
+                    let id = p.sites[pos].id;
+                    p.sites.remove(pos);
+                    for c in p.chans.iter_mut() {
+                        c.retain(|x| *x != id);
+                    }
+                    p.edit = Edit::Delete { pos, id };
+                    edits.push(p);
+                }
+                for x in reps.iter() {
+                    // insert at each position
+                    for pos in 0..=2 {
+                        let mut p = v0.clone();
+                        next_id += 1;
+                        let nv = sweep_voice(*x, next_id, 3);
+                        p.chans[2].push(nv.id);
+                        p.sites.insert(pos, nv);
+                        p.edit = Edit::Insert { pos, id: next_id };
+                        edits.push(p);
+                    }
+                    // replace either
+                    for pos in 0..2 {
+                        let mut p = v0.clone();
+                        next_id += 1;
+                        let old_id = p.sites[pos].id;
+                        let nv = sweep_voice(*x, next_id, 3);
+                        for c in p.chans.iter_mut() {
+                            for y in c.iter_mut() {
+                                if *y == old_id {
+                                    *y = next_id;
+                                }
+                            }
+                        }
+                        p.sites[pos] = nv;
+                        p.edit = Edit::Replace { pos, old_id, new_id: next_id };
+                        edits.push(p);
+                    }
+                }
+                for (k, e) in edits.into_iter().enumerate() {
+                    let backend = backends[k % backends.len()];
+                    for at in [0u64, 3] {
+                        out.push(base_scenario(
+                            "C07",
+                            backend,
+                            vec![Version::Gen(v0.clone()), Version::Gen(e.clone())],
+                            vec![Save { at, version: 1, latency: 0 }],
+                            at + 12,
+                        ));
+                    }
+                }
+            }
+        }
+    }
+    out
+}
